@@ -78,13 +78,18 @@ def SvcReq.name : SvcReq → String
   | .restart => "restart" | .disable => "disable" | .enable => "enable" | .fix => "fix" | .compromise => "compromise"
 
 def AppReq.name : AppReq → String
-  | .scan => "scan" | .close => "close" | .fix => "fix" | .compromise => "compromise"
+  | .scan => "scan" | .close => "close" | .execute => "execute" | .fix => "fix" | .compromise => "compromise"
+
+/-- what the route's handler does, as the extractor names it (`execute` is the local handler `self.run()` then
+`from_bool(self.operating_state == RUNNING)`; the others are `from_bool(self.<method>())`) -/
+def AppReq.handler : AppReq → String
+  | .execute => "run-then-RUNNING" | r => AppReq.name r
 
 /-- The routes and validators of `Service._init_request_manager` / `Application._init_request_manager`
 (plus the unvalidated `compromise` inherited from `Software`) are the model's request tables, in source order. -/
 theorem C13_gen_routes :
     Gen.Software.svcRoutes = (SvcReq.all.filter (· ≠ .compromise)).map (fun r => (SvcReq.name r, r.validator, SvcReq.name r)) ∧
-    Gen.Software.appRoutes = (AppReq.all.filter (· ≠ .compromise)).map (fun r => (AppReq.name r, r.validator, AppReq.name r)) ∧
+    Gen.Software.appRoutes = (AppReq.all.filter (· ≠ .compromise)).map (fun r => (AppReq.name r, r.validator, AppReq.handler r)) ∧
     ("compromise", "set_health_state(SoftwareHealthState.COMPROMISED)") ∈ Gen.Software.softwareRoutes ∧
     SvcReq.validator .compromise = none ∧ AppReq.validator .compromise = none := by decide
 
@@ -96,7 +101,7 @@ theorem C13_gen_idioms :
 override starts with `super().run()`; applications are registered under their own name (the install request looks
 the instance up by the registry key); and no subclass overrides a lifecycle method with different state logic. -/
 theorem C13_gen_classes :
-    (Gen.Software.classes.all fun (_, name, disc, isApp, _, _, _, _, ticks, runOk, _) =>
+    (Gen.Software.classes.all fun (_, name, disc, isApp, _, _, _, _, ticks, runOk, _, _) =>
         ticks && runOk && (!isApp || disc == name)) = true ∧
     Gen.Software.lifecycleOverrides = [] := by decide
 
@@ -686,6 +691,7 @@ def svcSources : SvcReq → List SvcState
 
 def appSources : AppReq → List AppState
   | .scan => [.running] | .close => [.running] | .fix => [.running] | .compromise => AppState.all
+  | .execute => AppState.all   -- "Node is on." only
 
 /-- the documented sources are the validators of the routes -/
 theorem C13_sources_are_validators :
@@ -711,12 +717,27 @@ theorem C13_service_fix_accepted_iff (s : Svc) :
   cases st <;> cases actual <;>
     simp [Svc.request, SvcReq.passes, SvcReq.validator, SvcReq.ev, Svc.apply, Soft.fix, Status.ofBool]
 
-theorem C13_application_request_accepted_iff (a : App) (r : AppReq) (hr : r ≠ .fix) :
+theorem C13_application_request_accepted_iff (a : App) (r : AppReq) (hr : r ≠ .fix) (hx : r ≠ .execute) :
     (a.request r).2 = .success ↔ a.st ∈ appSources r := by
   rcases a with ⟨st, cd, dur, sw⟩
   cases r <;> first
     | exact absurd rfl hr
+    | exact absurd rfl hx
     | (cases st <;> simp [App.request, AppReq.passes, AppReq.validator, AppReq.ev, App.apply, Status.ofBool, appSources, AppState.all])
+
+/-- the generic `execute` opens the application: it succeeds iff the application is RUNNING afterwards, i.e. iff it
+was RUNNING or CLOSED (an INSTALLING application cannot be run: `failure`, nothing changes) -/
+theorem C13_application_execute_accepted_iff (a : App) :
+    (a.request .execute).2 = .success ↔ a.st ≠ .installing := by
+  rcases a with ⟨st, cd, dur, sw⟩
+  cases st <;> simp [App.request, AppReq.passes, AppReq.validator, AppReq.ev, App.apply, App.run, Status.ofBool]
+
+/-- … and after a successful generic `execute` the application is RUNNING -/
+theorem C13_application_execute_runs (a : App) (h : (a.request .execute).2 = .success) :
+    (a.request .execute).1.st = .running := by
+  rcases a with ⟨st, cd, dur, sw⟩
+  revert h
+  cases st <;> simp [App.request, AppReq.passes, AppReq.validator, AppReq.ev, App.apply, App.run, Status.ofBool]
 
 theorem C13_application_fix_accepted_iff (a : App) :
     (a.request .fix).2 = .success ↔ a.st = .running ∧ (a.sw.actual = .good ∨ a.sw.actual = .compromised) := by
@@ -737,7 +758,7 @@ theorem C13_application_refused_unchanged (a : App) (r : AppReq) (h : (a.request
   rcases a with ⟨st, cd, dur, ⟨actual, visible, fixCd, fixDur, fixCount⟩⟩
   revert h
   cases r <;> cases st <;>
-    simp [App.request, AppReq.passes, AppReq.validator, AppReq.ev, App.apply, Status.ofBool] <;>
+    simp [App.request, AppReq.passes, AppReq.validator, AppReq.ev, App.apply, App.run, Status.ofBool] <;>
     (cases actual <;> simp [Soft.fix])
 
 /-- **Node level, both directions:** the request `[…, 'service', name, r]` answers `success` iff the node is ON, the
@@ -761,7 +782,7 @@ theorem C13_accepted_iff_source (n : Node) (name : String) (r : SvcReq) (hr : r 
         · simp [hf, hb]
         · simp [hf, hb, C13_service_request_accepted_iff i.s r hr]
 
-theorem C13_application_accepted_iff_source (n : Node) (name : String) (r : AppReq) (hr : r ≠ .fix) :
+theorem C13_application_accepted_iff_source (n : Node) (name : String) (r : AppReq) (hr : r ≠ .fix) (hx : r ≠ .execute) :
     n.appReqOut name r = .status .success ↔
       n.isOn = true ∧ ∃ u i, dget name n.appRoutes = some u ∧ n.findApp u = some i ∧ i.m.cls.baseRoutes = true ∧
         i.a.st ∈ appSources r := by
@@ -776,7 +797,7 @@ theorem C13_application_accepted_iff_source (n : Node) (name : String) (r : AppR
       | some i =>
         cases hb : i.m.cls.baseRoutes
         · simp [hf, hb]
-        · simp [hf, hb, C13_application_request_accepted_iff i.a r hr]
+        · simp [hf, hb, hx, C13_application_request_accepted_iff i.a r hr hx]
 
 /-- **A refused service request changes nothing** (node level): whenever `[…,'service',name,r]` does not answer `success`
 — node not ON, nothing routed, wrong state, or `fix` with nothing to fix — the events it delivers leave every service
